@@ -337,9 +337,10 @@ _c06n = ["opt_absent", "opt_null", "opt_number", "opt_wrong_kind", "mu_absent", 
          "optvec_null", "optvec_single"]
 PROPS["C06"] = {
     "title": "resolvers receive exactly the spec-coerced argument values (coercion kernels)",
-    "files": ["src/types/external/optional.rs", "src/types/external/list/vec.rs", "src/types/maybe_undefined.rs", "src/types/external/integers.rs"],
+    "files": ["src/types/external/optional.rs", "src/types/external/list/vec.rs", "src/types/maybe_undefined.rs", "src/types/external/integers.rs", "src/context.rs"],
     "funcs": ["<Option<i32> as InputType>::parse", "<MaybeUndefined<i32> as InputType>::parse", "<Vec<i32> as InputType>::parse",
-              "<Vec<Option<i32>> as InputType>::parse", "<Option<Vec<i32>> as InputType>::parse"],
+              "<Vec<Option<i32>> as InputType>::parse", "<Option<Vec<i32>> as InputType>::parse",
+              "ContextBase::param_value / get_param_value / resolve_input_value_inner / var_value (src/context.rs) over a hand-built Context"],
     "claim": "for each wrapper type over Int and each enumerated input shape (absent, null, Number(n) for EVERY i64 n, Boolean, String, [], "
              "[n], [n, null]) InputType::parse returns exactly what the spec's input coercion gives: absent vs null distinguished only by "
              "MaybeUndefined; a single value becomes a one-element list; a null item in [Int!] is an error; a wrong kind is an error; an "
@@ -349,7 +350,12 @@ PROPS["C06"] = {
                    "invoked on error'; lists longer than 2",
     "assumptions": [],
     "harnesses": [H("c06::c06_%s" % n, crate="hm", unwind=5, stubs=[FMT], cls="L", mem_gb=6, timeout_s=900,
-                    bounds="shape %s; numbers: every i64 / i32 (absent/null shapes are concrete)" % n) for n in _c06n],
+                    tiers=("thorough",) if n in ("vec_list1", "vec_list_null_item", "vecopt_list2") else ("quick", "thorough"),
+                    bounds="shape %s; numbers: every i64 / i32 (absent/null shapes are concrete)" % n) for n in _c06n]
+                 + [H("c06p::c06_param_%s" % n, crate="hm", unwind=5, stubs=[FMT, RS], cls="L", mem_gb=14, timeout_s=1800,
+                      bounds="ContextBase::param_value::<Option<i32>> on field f(a: ...), case %s; Ints: every i32" % n)
+                    for n in ["literal", "omitted", "var_supplied", "var_null", "var_omitted_var_default", "var_omitted_no_var_default",
+                              "list_with_omitted_var"]],
 }
 
 _c01 = [H("c01::c01_leaf_%s" % t, crate="hm", unwind=3, bounds="every value of the type") for t in
@@ -384,18 +390,22 @@ PROPS["C10"] = {
     "claim": "check_recursive_depth rejects exactly when the nesting of a chain of up to 2 wrappers (field-with-selection or inline fragment, "
              "solver-chosen) exceeds the limit, for EVERY usize limit; check_max_directives rejects exactly when a field's directive count "
              "(0..2, optionally under an inline fragment) exceeds EVERY usize limit; the real depth and complexity visitors, driven by every "
-             "well-nested script of up to 6 field events, report the maximum nesting and the number of fields",
+             "well-nested script of up to 8 field events, report the maximum nesting and the number of fields",
     "not_covered": "fragment spreads in the limit checks (one HashMap entry: not measured within the cap), the comparison of the measures with "
                    "the configured limits inside check_rules (needs a registry entry for the root type), custom complexity functions "
                    "generated by the derive macro, dynamic schemas, 'before any resolver runs'",
     "assumptions": [],
     "harnesses": [
-        H("c10::c10_rec_depth_chain1", crate="hm", unwind=5, cls="L", mem_gb=14, timeout_s=1500, stubs=[FMT, RS], bounds="chain of 0..1 wrappers; every usize limit"),
-        H("c10::c10_rec_depth_chain2", crate="hm", unwind=5, cls="L", mem_gb=16, timeout_s=2400, stubs=[FMT, RS], tiers=("thorough",), bounds="chain of 0..2 wrappers; every usize limit"),
-        H("c10::c10_max_directives", crate="hm", unwind=5, cls="L", mem_gb=14, timeout_s=1500, stubs=[FMT, RS], bounds="0..2 directives, nested or not; every usize limit"),
-        H("c10::c10_depth_complexity2", crate="hm", unwind=8, cls="L", mem_gb=12, timeout_s=1200, stubs=[FMT, RS], bounds="every well-nested script of 2 field events"),
-        H("c10::c10_depth_complexity4", crate="hm", unwind=8, cls="L", mem_gb=16, timeout_s=1500, stubs=[FMT, RS], bounds="every well-nested script of 4 field events"),
-        H("c10::c10_depth_complexity6", crate="hm", unwind=8, cls="L", mem_gb=20, timeout_s=2400, stubs=[FMT, RS], tiers=("thorough",), bounds="every well-nested script of 6 field events"),
+        H("c10::c10_rec_depth_chain0", crate="hm", unwind=5, cls="L", mem_gb=10, timeout_s=1200, stubs=[FMT, RS], bounds="no wrapper; every usize limit"),
+        H("c10::c10_rec_depth_chain1", crate="hm", unwind=5, cls="L", mem_gb=14, timeout_s=1800, stubs=[FMT, RS], bounds="1 wrapper (field | inline fragment); every usize limit"),
+        H("c10::c10_rec_depth_chain2", crate="hm", unwind=5, cls="L", mem_gb=16, timeout_s=2400, stubs=[FMT, RS], tiers=("thorough",), bounds="2 wrappers; every usize limit"),
+        H("c10::c10_max_directives0", crate="hm", unwind=5, cls="L", mem_gb=10, timeout_s=1200, stubs=[FMT, RS], bounds="0 directives, nested or not; every usize limit"),
+        H("c10::c10_max_directives1", crate="hm", unwind=5, cls="L", mem_gb=14, timeout_s=1800, stubs=[FMT, RS], bounds="1 directive; every usize limit"),
+        H("c10::c10_max_directives2", crate="hm", unwind=5, cls="L", mem_gb=14, timeout_s=2400, stubs=[FMT, RS], tiers=("thorough",), bounds="2 directives; every usize limit"),
+        H("c10::c10_depth_complexity2", crate="hm", unwind=8, stubs=[FMT, RS], bounds="every well-nested script of 2 field events"),
+        H("c10::c10_depth_complexity4", crate="hm", unwind=8, stubs=[FMT, RS], bounds="every well-nested script of 4 field events"),
+        H("c10::c10_depth_complexity6", crate="hm", unwind=8, stubs=[FMT, RS], bounds="every well-nested script of 6 field events"),
+        H("c10::c10_depth_complexity8", crate="hm", unwind=10, stubs=[FMT, RS], timeout_s=900, bounds="every well-nested script of 8 field events"),
     ],
 }
 
@@ -411,8 +421,9 @@ PROPS["C22"] = {
                    "fragments",
     "assumptions": [],
     "harnesses": [
-        H("c22::c22_lookahead_two", crate="hm", unwind=5, cls="L", mem_gb=14, timeout_s=1500, stubs=[RS], bounds="2 items: field + (field | inline fragment{field}); 3 names from {a,b}"),
-        H("c22::c22_lookahead_spread", crate="hm", unwind=5, cls="L", mem_gb=16, timeout_s=1800, stubs=[RS], bounds="2 items: spread(F|unknown) + field; fragment F{field}; names from {a,b}"),
+        H("c22::c22_lookahead_one", crate="hm", unwind=5, cls="L", mem_gb=12, timeout_s=1500, stubs=[RS], bounds="1 item: field | inline fragment{field}; names from {a,b}"),
+        H("c22::c22_lookahead_siblings", crate="hm", unwind=5, cls="L", mem_gb=14, timeout_s=1800, stubs=[RS], bounds="2 sibling fields; names from {a,b}"),
+        H("c22::c22_lookahead_spread", crate="hm", unwind=5, cls="L", mem_gb=16, timeout_s=1800, stubs=[RS], tiers=("thorough",), bounds="1 item: spread(F | unknown); fragment F{field}; names from {a,b}"),
     ],
 }
 
